@@ -103,12 +103,12 @@ func buildPlan(id string, pinned map[string]string, tier string) *Plan {
 			"module layer on the target group: GT is an abelian group written multiplicatively (exponent vectors over indeterminates); Mul adds, squarings double, Inverse / InverseUnitary negate",
 			"ASSUMED component contracts (none of them is under contract; their tower arithmetic is proved under C06): Expt / ExptHalf raise to the seed x / to x/2, Frobenius^i raises to p^i, Conjugate raises to p^(k/2) (hence to -1 on the cyclotomic subgroup the easy part maps into), CyclotomicSquare squares on that subgroup",
 			"the documented family polynomials p(x), r(x) of the BN / BLS12 / BLS24 curves (doc.go of each package), with the seed restricted to the residue class that makes p an integer (and x even where ExptHalf is used); the concrete seeds of the four curves lie in their class (checked when the contract was written: recorded in the contract text)"}
-		p.Assumptions = []string{"FinalExponentiation is stated for a single argument (len(_z) == 0); the product over the extra arguments is not under contract",
+		p.Assumptions = []string{"the extra arguments of FinalExponentiation enter through a ghost accumulator: the clause says that the value raised is the product of the first argument and of every extra argument the loop reads (each exactly once)",
 			"MillerLoop, MillerLoopFixedQ and FinalExponentiation are opaque inside the entry points: only their composition is proved there"}
 		p.NotCovered = []string{"**the property's own statement**: bilinearity, non-degeneracy, the exact order of the generator pairing and the agreement of the Miller-loop variants are theorems about divisors and line functions; no contract here decides them",
-			"MillerLoop / MillerLoopFixedQ / PrecomputeLines (size checks, infinity filtering, line evaluations, the unrolled first iterations): not under contract",
+			"MillerLoop / MillerLoopFixedQ beyond their entry guard (infinity filtering, line evaluations, the unrolled first iterations) and PrecomputeLines: not under contract",
 			"final exponentiations of bls24-317 (compressed squarings in a loop), bw6-633, bw6-761 (specialised exponentiation chains): not under contract; the Expt / Frobenius / cyclotomic routines themselves: not under contract"}
-		p.Note = "Partial. (1) FinalExponentiation of bn254, bls12-381, bls12-377 and bls24-315 raises to the documented exponent: after the easy part the value is z^((c-1)(p^e+1)) with c the conjugation exponent, and the hard-part chain raises to H with H*r(x) = s*Phi_k(p(x)) as an identity of polynomials in the seed, for every seed of the family. (2) On all 7 pairing curves Pair, PairingCheck, PairFixedQ and PairingCheckFixedQ return the Miller loop's error unchanged in kind (an error, no value), and otherwise the final exponentiation of exactly the Miller loop's result, compared with one by the check variants."
+		p.Note = "Partial. (1) FinalExponentiation of bn254, bls12-381, bls12-377 and bls24-315 raises the product of all its arguments to the documented exponent: after the easy part the value is z^((c-1)(p^e+1)) with c the conjugation exponent, and the hard-part chain raises to H with H*r(x) = s*Phi_k(p(x)) as an identity of polynomials in the seed, for every seed of the family. (2) On all 7 pairing curves Pair, PairingCheck, PairFixedQ and PairingCheckFixedQ return the Miller loop's error unchanged in kind (an error, no value), and otherwise the final exponentiation of exactly the Miller loop's result, compared with one by the check variants. (3) MillerLoop and MillerLoopFixedQ of all 7 curves refuse exactly the empty input and mismatched operand counts, with an error, before computing anything."
 		return p
 	case "C07":
 		p := &Plan{ID: id}
@@ -245,7 +245,7 @@ func buildPlan(id string, pinned map[string]string, tier string) *Plan {
 			"group elements and pairing lines are values of uninterpreted sorts; MultiExp, JointScalarMultiplication, FromAffine, SubAssign, FromJacobian, PairingCheckFixedQ and deriveGamma are opaque calls whose arguments and results are captured at the call site",
 			"textbook fact (not proved here): f(X) - f(a) = q(X) (X - a) with q_j = f_{j+1} + a f_{j+2} + ... (the suffix Horner values that dividePolyByXminusA is proved to return)"}
 		p.NotCovered = []string{"completeness of Verify on honest proofs and soundness of the pairing equation: these need the pairing (C05) and MSM (C04) semantics, not under contract",
-			"BatchVerifyMultiPoints, BatchOpenSinglePoint, NewSRS, the MPC setup, serialisation of keys and proofs: not under contract",
+			"BatchVerifyMultiPoints: guards, delegation to Verify for one proof, acceptance only on a successful pairing check and untouched inputs are under contract, the folded operands of its pairing check are not; BatchOpenSinglePoint, NewSRS, the MPC setup, serialisation of keys and proofs: not under contract",
 			"Verify does not test subgroup membership of the commitment and of H (the property quantifies over subgroup elements)"}
 		p.Note = "eval is Horner's value of the polynomial; dividePolyByXminusA returns the suffix Horner values (the synthetic-division quotient) and leaves f(a) - fa in f[0]; Commit refuses exactly the empty and the oversized polynomials and otherwise returns the multi-exponentiation of the first len(p) SRS points by p; Open returns ClaimedValue = p(point), never modifies p and succeeds on constant polynomials (H = point at infinity); Verify returns nil only if the pairing check was made on (totalG1Aff, proof.H) with the key's lines and succeeded, with totalG1 = [f(a)]G1 + [-a]H - commitment built by exactly those calls on those operands; fold returns the inner product of evaluations and factors and the multi-exponentiation of the digests; FoldProof refuses mismatched and empty batches, uses the powers 1, gamma, gamma^2, ... of the derived challenge and keeps H; BatchVerifySinglePoint accepts only if folding and verification both accepted."
 		return p
